@@ -67,8 +67,33 @@ def gb(rng, d):
     return f"COALESCE({gi(rng, d - 1)}, {rng.choice(['0', '1', '2'])}) {rng.choice(['=', '<>', '<', '>'])} {rng.choice(['0', '1', '2'])}"
 
 
+def nonnull_gated(rng):
+    """shapes of the rules that are gated on the 'nonnull' annotation (complements, absorption, elimination):
+    A, B drawn from never-NULL predicates (IS [NOT] NULL) and nullable ones, in every role and operand order"""
+    never_null = ["a IS NULL", "b IS NOT NULL", "p IS NULL", "q IS NOT NULL", "(a IS NULL OR b IS NULL)"]
+    nullable = ["p", "q", "a = 1", "a < b", "b > 0", "NOT p"]
+    pick = lambda: rng.choice(never_null) if rng.random() < 0.5 else rng.choice(nullable)
+    A, B = pick(), pick()
+    shapes = [
+        "({A} AND {B}) OR ({A} AND NOT {B})", "({A} AND NOT {B}) OR ({A} AND {B})", "({B} AND {A}) OR (NOT {B} AND {A})",
+        "({A} OR {B}) AND ({A} OR NOT {B})", "({A} OR NOT {B}) AND ({A} OR {B})", "({B} OR {A}) AND (NOT {B} OR {A})",
+        "{A} AND NOT {A}", "{A} OR NOT {A}", "NOT {A} AND {A}", "{A} AND ({A} OR {B})", "{A} OR ({A} AND {B})",
+        "{A} AND (NOT {A} OR {B})", "{A} OR (NOT {A} AND {B})", "NOT {A} AND ({A} OR {B})", "NOT {A} OR ({A} AND {B})",
+        "({A} AND {B}) OR NOT {A}", "({A} OR {B}) AND NOT {B}",
+    ]
+    e = rng.choice(shapes).format(A=A, B=B)
+    r = rng.random()
+    if r < 0.2:
+        e = f"NOT ({e})"
+    elif r < 0.35:
+        e = f"{rng.choice(['p', 'q', 'a = 1'])} {rng.choice(['AND', 'OR'])} ({e})"
+    return e
+
+
 def targeted(rng):
     """families that sit on the rules"""
+    if rng.random() < 0.3:
+        return nonnull_gated(rng)
     ops = ["=", "<>", "<", "<=", ">", ">="]
     c = rng.choice(["a", "b"])
     k = rng.choice([0, 1, 2])
@@ -413,7 +438,7 @@ def worker(ctx):
         if pre[0] == "rejected":
             ctx.count("generated_expression_rejected_by_engine")
             continue
-        typed = rng.random() < 0.4
+        typed = rng.random() < 0.55
         opts = {}
         r = rng.random()
         if r < 0.15:
